@@ -1,0 +1,101 @@
+//! Verification-only seam for hash seeds (`--cfg cairo_verif`).
+//!
+//! The hash maps and sets of this crate normally use `hashbrown::DefaultHashBuilder`, which is
+//! seeded randomly per process. Under the verification cfg they use [`SeededHashBuilder`], whose
+//! seed is a thread-local set by a simulator, so that any dependence of the compiler's output on
+//! hash iteration order becomes a reproducible function of one integer.
+use core::hash::{BuildHasher, Hasher};
+use std::cell::Cell;
+
+thread_local! {
+    static SEED: Cell<u64> = const { Cell::new(0) };
+}
+
+/// Sets the seed used by hash builders created on the current thread from now on.
+pub fn set_hash_seed(seed: u64) {
+    SEED.with(|s| s.set(seed));
+}
+
+/// Returns the seed used by hash builders created on the current thread.
+pub fn hash_seed() -> u64 {
+    SEED.with(|s| s.get())
+}
+
+/// A `BuildHasher` whose hashers are keyed by the thread's seed at construction time.
+#[derive(Clone, Copy, Debug)]
+pub struct SeededHashBuilder {
+    seed: u64,
+}
+impl Default for SeededHashBuilder {
+    fn default() -> Self {
+        Self { seed: hash_seed() }
+    }
+}
+impl BuildHasher for SeededHashBuilder {
+    type Hasher = SeededHasher;
+    fn build_hasher(&self) -> SeededHasher {
+        SeededHasher { state: self.seed ^ 0x9E37_79B9_7F4A_7C15 }
+    }
+}
+
+/// A simple multiply-rotate hasher with a strong finalizer.
+#[derive(Clone, Copy, Debug)]
+pub struct SeededHasher {
+    state: u64,
+}
+impl SeededHasher {
+    #[inline]
+    fn add(&mut self, word: u64) {
+        self.state = (self.state.rotate_left(5) ^ word).wrapping_mul(0x517C_C1B7_2722_0A95);
+    }
+}
+impl Hasher for SeededHasher {
+    #[inline]
+    fn write(&mut self, bytes: &[u8]) {
+        let mut chunks = bytes.chunks_exact(8);
+        for c in &mut chunks {
+            self.add(u64::from_le_bytes(c.try_into().unwrap()));
+        }
+        let rest = chunks.remainder();
+        if !rest.is_empty() {
+            let mut buf = [0u8; 8];
+            buf[..rest.len()].copy_from_slice(rest);
+            self.add(u64::from_le_bytes(buf) ^ ((rest.len() as u64) << 56));
+        }
+    }
+    #[inline]
+    fn write_u8(&mut self, i: u8) {
+        self.add(i as u64);
+    }
+    #[inline]
+    fn write_u16(&mut self, i: u16) {
+        self.add(i as u64);
+    }
+    #[inline]
+    fn write_u32(&mut self, i: u32) {
+        self.add(i as u64);
+    }
+    #[inline]
+    fn write_u64(&mut self, i: u64) {
+        self.add(i);
+    }
+    #[inline]
+    fn write_usize(&mut self, i: usize) {
+        self.add(i as u64);
+    }
+    #[inline]
+    fn finish(&self) -> u64 {
+        let mut z = self.state;
+        z = (z ^ (z >> 30)).wrapping_mul(0xBF58_476D_1CE4_E5B9);
+        z = (z ^ (z >> 27)).wrapping_mul(0x94D0_49BB_1331_11EB);
+        z ^ (z >> 31)
+    }
+}
+
+/// Stands in for the `hashbrown` crate name in the collection modules: everything of the real
+/// crate, with the default hash builder replaced.
+pub mod hashbrown_shadow {
+    pub use ::hashbrown::*;
+
+    pub type DefaultHashBuilder = super::SeededHashBuilder;
+}
